@@ -154,7 +154,7 @@ def run_scenario(ops, watch, scripts, decl, n):
                 lines.append(None)  # nothing is fed once closed (C08's business)
                 obs.append(None)
                 continue
-            b.net.feed(simnet.plain_raw(t, payload))
+            fed = b.net.feed(simnet.plain_raw(t, payload)) or ""
             known = t in decl
             ok = known and decodes(decl, t, payload)
             evs = b.events[ev0:]
@@ -171,6 +171,10 @@ def run_scenario(ops, watch, scripts, decl, n):
             snap_after = (b.conn.connection_state, fh.err_class(b.conn._fatal_exception), len(b.loop.armed_timers()),
                           len(b.tr.writes), list(b.stops))
             invoked = [x for k, x in evs if k == "h"]
+            if fed.startswith("raised:") and (not known or ok) and getattr(b.tr, "fail_writes", None) is None:
+                bad.append(("frame-made-data-received-raise:" + ("known" if known else "unknown-type"),
+                            f"a {'well-formed frame of known' if known else 'frame of undefined'} type {t} made data_received raise {fed[7:]} "
+                            "(the transport is lost with it)", t, payload))
             if not known:
                 if snap_after != snap_before or evs:
                     bad.append(("unknown-type-has-effect:" + ("0" if t == 0 else "above" if t > max(decl) else "gap"),
